@@ -77,6 +77,9 @@ PATTERNS = [
     ("precision-bare", "", "%.2d", False),
     ("precision-ext", "", "q_%.4d.raw", False),
     ("dot-in-stem", "", "a.b_%d.raw", False),
+    ("braces", "", "d_{take 1}_%d.raw", False),
+    ("braces-dir", "o{0}", "p{}_%d.raw", False),
+    ("brace-open", "", "x{_%d", False),
     ("default", "", None, True),
 ]
 QUIET = [["-q"], ["-q"], ["--quiet"], ["--no-status"], [], []]
